@@ -10,6 +10,24 @@ def hostile_packet(rng, n_rr=4):
         return rng.choice(HOSTILE + [rng.bytes(1 + rng.below(5))])[:63] or b"z"
 
     def name():
+        r = rng.below(12)
+        if r == 0:
+            # maximal names: 254 / 255 wire bytes, few long labels or many one-byte labels
+            total = rng.choice([254, 255])
+            if rng.chance(1, 2):
+                return [b"m"] * ((total - 1) // 2) if total % 2 == 1 else [b"m"] * ((total - 3) // 2) + [b"mm"]
+            ls, left = [], total - 1
+            while left > 0:
+                l = min(63, left - 1)
+                if left - 1 - l == 1:
+                    l -= 1
+                ls.append(bytes([97 + len(ls)]) * l)
+                left -= l + 1
+            return ls
+        if r == 1:
+            return [b"living-room-speaker1", b"local"]
+        if r == 2:
+            return [b"_srv", b"_tcp", b"local"]
         return [label() for _ in range(rng.below(4))]
 
     def cstr():
